@@ -328,8 +328,25 @@ func (c *Ctx) RuleLimitZero(fns []*ssa.Function, varName string) {
 				if _, isConst := other.(*ssa.Const); isConst {
 					continue // this is itself a `Max > 0` style test
 				}
-				// normalised strictness: value > Max (or Max < value)
-				strict := (bo.Op == token.GTR && globalLoad(bo.Y) != nil) || (bo.Op == token.LSS && globalLoad(bo.X) != nil)
+				// normalised strictness: the edge that rejects must be taken exactly when value > Max. The rejecting edge
+				// is the successor that leads only to error returns; with the comparison on the true edge that is
+				// `value > Max` / `Max < value`, on the false edge `value <= Max` / `Max >= value`.
+				maxOnRight := globalLoad(bo.Y) != nil
+				strictTrue := (bo.Op == token.GTR && maxOnRight) || (bo.Op == token.LSS && !maxOnRight)
+				strictFalse := (bo.Op == token.LEQ && maxOnRight) || (bo.Op == token.GEQ && !maxOnRight)
+				strict := strictTrue
+				for _, r := range *bo.Referrers() {
+					if iff, ok := r.(*ssa.If); ok {
+						t, f := iff.Block().Succs[0], iff.Block().Succs[1]
+						te, fe := leadsOnlyToErrors(t), leadsOnlyToErrors(f)
+						switch {
+						case te && !fe:
+							strict = strictTrue
+						case fe && !te:
+							strict = strictFalse
+						}
+					}
+				}
 				// find dominating zero-test of g
 				if c.dominatedByNonZeroTest(bo.Block(), g) {
 					msg := "compared under `" + g.Name() + " != 0`"
